@@ -1172,6 +1172,8 @@ val limit_ok : lins list -> bool
 
 val frame_ok : z -> z -> z -> bool
 
+val mov_unsafe_ok : z -> binstr -> mins list -> bool
+
 type kind =
 | KPrintIr
 | KPrintBc
